@@ -192,6 +192,8 @@ def check_search(ctx: Ctx, out: Outcome, model, label: str, state: str, keep: li
         d = raw_descendants(model, anchor)
         return {i for i in ids if i in d}
 
+    if only is not None and only.get("argkind") == "class-multi":
+        only = None  # the whole class loop is cheap; the finding is matched by signature below
     if only is not None:
         # replay of one recorded query: rebuild the arguments and the expectation with the same oracle
         byname = {c.__name__: c for c in handlers.values()}
@@ -230,11 +232,34 @@ def check_search(ctx: Ctx, out: Outcome, model, label: str, state: str, keep: li
                 run_query([xt], "full", with_below(exp, a), below=a)
     run_query(["org.example:NoSuchType"], "full", set())
     # classes
-    classes = sorted({handlers[x] for x in present if x in handlers}, key=lambda c: c.__name__)
+    classes = sorted({handlers[x] for x in present if x in handlers}
+                     | ({handlers["viewpoint:DRepresentationDescriptor"]} if desc and "viewpoint:DRepresentationDescriptor" in handlers else set()),
+                     key=lambda c: c.__name__)
     for cls in classes:
-        if cls.__name__ == "Diagram":
-            continue
+        regd = [k for k, c in handlers.items() if c is cls]
         exp = {id(e) for e in typed if handlers.get(xt_of[id(e)]) is cls}
+        if "viewpoint:DRepresentationDescriptor" in regd:
+            exp |= {id(e) for e in desc}
+        try:
+            built = _xtype.build_xtype(cls)
+        except TypeError:
+            built = None
+        if regd != [built]:
+            # a class registered under other types than the one build_xtype derives from its name: search(cls) looks
+            # for the derived type only (generated table: `handlers_whose_class_builds_another_type`)
+            try:
+                got = {id(e) for e in model.search(cls)._elements}
+            except Exception:  # noqa: BLE001
+                got = None
+            out.case((label, state, "search", "class-multi", cls.__name__), None, bool(exp))
+            if got is not None and got != exp and got <= exp:
+                out.find("search|class|registered-under-other-types",
+                         f"[{label}/{state}] search({cls.__name__}) returns {len(got)} objects, the scan finds {len(exp)} whose wrapper class is "
+                         f"{cls.__name__} (registered for {regd}, build_xtype gives {built!r})",
+                         {"kind": "search", "model": label, "state": state, "args": [cls.__name__], "argkind": "class-multi", "below": None})
+            elif got != exp:
+                run_query([cls], "class", exp)
+            continue
         run_query([cls], "class", exp)
         if anchors and rng.random() < ctx.pick(10, 100) / 100:
             a = rng.choice(anchors)
@@ -263,7 +288,7 @@ def check_search(ctx: Ctx, out: Outcome, model, label: str, state: str, keep: li
     # several at once
     for _ in range(ctx.pick(5, 30)):
         sel = rng.sample(present, min(len(present), rng.randint(2, 4)))
-        mixed = [handlers[x] if x in handlers and rng.random() < 0.4 and handlers[x].__name__ != "Diagram" else x for x in sel]
+        mixed = [handlers[x] if x in handlers and rng.random() < 0.4 and [k for k, c in handlers.items() if c is handlers[x]] == [x] else x for x in sel]
         exp = set()
         for a in mixed:
             if isinstance(a, str):
